@@ -138,6 +138,29 @@ def run(chk):
             detail[tid] = {'examples': vals, 'form': label, 'options': {'seed': kw['seed']}, 'size': sizekw, 'first': base['rex'], 'second': r['rex']}
             chk.count_case(('repeats', json.dumps(vals), label, json.dumps(sizekw)), nontrivial=True)
             tid += 1
+    # rexpy_streams with a list of strings (a documented input form): repeating the call with the same list gives the
+    # same expressions, those of the list without its header line, and leaves the caller's list alone
+    from tdda.rexpy.rexpy import rexpy_streams
+    from tdda.rexpy import extract as _extract
+    for i in range(200 if thorough else 40):
+        body = [e for e in rx.rich_examples(rnd) if e is not None]
+        if not body:
+            continue
+        given = ['header line'] + body
+        snapshot_ = list(given)
+        seed = rnd.randint(0, 9)
+        try:
+            r1_ = rexpy_streams(given, out_path=False, skip_header=True, seed=seed)
+            r2_ = rexpy_streams(given, out_path=False, skip_header=True, seed=seed)
+            r3_ = _extract(list(body), seed=seed)
+            raised = 'none'
+        except Exception as exn:
+            r1_, r2_, r3_, raised = [], None, None, type(exn).__name__
+        events.append({'tid': tid, 'ev': 'Pair', 'kind': 'streams', 'raised': raised, 'same': r1_ == r2_ == r3_ and given == snapshot_,
+                       'seeded': True, 'prngsame': True, 'sampling': False})
+        detail[tid] = {'examples': snapshot_, 'form': 'rexpy_streams(list, skip_header=True) twice, and extract(list[1:])',
+                       'options': {'seed': seed}, 'size': None, 'first': r1_, 'second': r2_, 'third': r3_, 'list_afterwards': given}
+        tid += 1
     # pandas Series form (pdextract: default options, optional seed): same expressions as the list of its values
     import pandas as pd
     from tdda.rexpy import pdextract, extract
